@@ -12,6 +12,9 @@ Correspondence:
     the real code returned on that same tree.  Every add / addv / rm / clear is also re-executed by the
     **model's** operation (Model/NNGnatOps.lean) from the previous dump with the k-centers draws the real
     operation made; the model's resulting dump must equal the real one token for token.
+Generator classes: random mixes; remove-then-clear-then-refill (run with the ASan quarantine off so that freed
+leaf buffers are reused, see REUSE_ENV).  A model/implementation disagreement aims a targeted search
+(disagreement_probes) for an observable failure before it is reported as `no-failing-input-found`.
 Spec oracle (Python, on the implementation's output only, independent of the model): abstract
 multiset, size and list after *every* operation, brute-force distance lists for every query, answers
 are sub-multisets of the current contents, sorted; an independent GnatInv checker on every dump.
@@ -826,7 +829,7 @@ def run(ck):
     lock = threading.Lock()
     jobs = []
     for name, script in corpus():
-        jobs.append((script, "corpus"))
+        jobs.append((script, "refill" if "refill" in name else "corpus"))     # refill scripts run with allocator reuse
     nper = 40 if ck.tier == "quick" else 400
     dnames = ["uniform", "dups", "lattice", "clusters"]
     metrics = list(METRICS)
